@@ -76,13 +76,17 @@ inductive Got where
   | value (v : Val)
   | node (n : Node)
 
-def ctxGetNode (root : Node) (rs : Bool) (p : Path) (st : EvSt) : Except Err Got :=
+def ctxGetNode (root : Node) (rs : Bool) (p : Path) (st : EvSt) : Except Err (Got × EvSt) :=
   match plookup p st.cache with
-  | some v => if rs && st.tainted.contains p then .error .unsafeE else .ok (.value v)
+  | some v =>
+    if st.tainted.contains p then
+      if rs then .error .unsafeE
+      else .ok (.value v, { st with unsafeSeen := st.unsafeSeen + 1 })   -- the consumer has now seen unsafe content
+    else .ok (.value v, st)
   | none =>
     match getNode root p with
     | none => .error .eval
-    | some n => .ok (.node n)
+    | some n => .ok (.node n, st)
 
 /-- XRefNode.on_evaluate_impl: follow the chain of references -/
 def xrefLoop (rec : Rec) (root : Node) (rs : Bool) (self : Path) :
@@ -94,14 +98,14 @@ def xrefLoop (rec : Rec) (root : Node) (rs : Bool) (self : Path) :
     | some tp =>
       match ctxGetNode root rs tp st with
       | .error e => .error e
-      | .ok (.value v) =>
-        if chain.contains cur then .error .eval else .ok (v, st)
-      | .ok (.node n) =>
+      | .ok (.value v, st1) =>
+        if chain.contains cur then .error .eval else .ok (v, st1)
+      | .ok (.node n, st1) =>
         if chain.contains cur || tp = self then .error .eval
         else
           match n with
-          | .leaf _ (.xref next) => xrefLoop rec root rs self fuel next (chain ++ [cur]) st
-          | _ => rec rs n tp st
+          | .leaf _ (.xref next) => xrefLoop rec root rs self fuel next (chain ++ [cur]) st1
+          | _ => rec rs n tp st1
 
 def scalarStr : Scalar → String
   | .null => "None"
@@ -326,7 +330,11 @@ def evalNodeF (root : Node) (w : World) : Nat → Bool → Node → Path → EvS
     else
       let st0 := if !eSafe n.flags then { st with unsafeSeen := st.unsafeSeen + 1 } else st
       match plookup path st0.cache with
-      | some v => if rs && st0.tainted.contains path then .error .unsafeE else .ok (v, st0)
+      | some v =>
+        if st0.tainted.contains path then
+          if rs then .error .unsafeE
+          else .ok (v, { st0 with unsafeSeen := st0.unsafeSeen + 1 })   -- a tainted cache hit counts as unsafe content seen
+        else .ok (v, st0)
       | none =>
         if st0.inProgress.contains path then .error .recursion -- unbounded recursion → RecursionError → EvalError
         else
